@@ -1,9 +1,143 @@
-(* C08 placeholder: replaced by the real statements. *)
-From Coq Require Import List ZArith.
-From AV Require Import model.Proto model.Heuristic model.Contfrac.
+(* C08 — addition-sequence algorithms return a valid chain containing every target.
+   Only statements, each closed by an exact lemma, with Print Assumptions.
+   is_chain / asc are the specification predicates of model/Chain.v; find_sequence_alg is the entry
+   point the correspondence check runs (heuristic.Algorithm.FindSequence / contfrac.Algorithm.FindSequence). *)
+From Coq Require Import List ZArith Bool Sorted Permutation.
+From AV Require Import model.Proto model.Lists model.Chain model.Heuristic model.Contfrac.
+From AV Require Import proofs.SeqAux proofs.HeuristicProofs proofs.ContfracProofs.
 Import ListNotations.
 Open Scope Z_scope.
 
-Theorem C08_example : find_sequence_alg (SAContfrac Binary) [5; 5] = Ok [1; 2; 4; 5].
+(* ---- main statements, on the entry point (adequate fuel included) ---- *)
+
+(* every configuration that contains a total heuristic (delta_largest, approximation) and every
+   continued-fraction strategy: for every non-empty list of positive targets, in any order, with
+   repeats, with or without 1 and 2, the result is Ok c (no error, no panic, not out of fuel) with c a
+   valid ascending addition chain that contains every target and nothing above the largest target
+   (except the leader 2) *)
+Theorem C08_total_configurations : forall a, seqalg_total a = true ->
+  forall ts, ts <> [] -> (forall t, In t ts -> 0 < t) ->
+  exists c, find_sequence_alg a ts = Ok c /\ is_chain c /\ asc c /\ (forall t, In t ts -> In t c) /\
+            (forall x, In x c -> x <= 2 \/ exists t, In t ts /\ x <= t).
+Proof. exact find_sequence_alg_total. Qed.
+Print Assumptions C08_total_configurations.
+
+(* every configuration, total or not (halving alone, use_first() ...): the only failure is the
+   "no sequence" error, and only without a total heuristic; never an invalid or incomplete chain *)
+Theorem C08_any_configuration : forall a ts, ts <> [] -> (forall t, In t ts -> 0 < t) ->
+  match find_sequence_alg a ts with
+  | Ok c => is_chain c /\ asc c /\ (forall t, In t ts -> In t c) /\
+            (forall x, In x c -> x <= 2 \/ exists t, In t ts /\ x <= t)
+  | Err e => e = noseq /\ seqalg_total a = false
+  | _ => False
+  end.
+Proof. exact find_sequence_alg_sound. Qed.
+Print Assumptions C08_any_configuration.
+
+(* the caller's slice after the call holds the same values (contfrac sorts it in place) *)
+Theorem C08_target_values : forall a ts, Permutation (targets_after a ts) ts.
+Proof. exact targets_after_perm. Qed.
+Print Assumptions C08_target_values.
+
+(* the configurations named by the property are total; halving alone is not *)
+Example C08_configurations :
+  map seqalg_total seqalgs = [true; true; true; true; false; true; true; true; true; true; true; true].
 Proof. vm_compute. reflexivity. Qed.
-Print Assumptions C08_example.
+
+(* ---- heuristics: the contract of Suggest and its instances ---- *)
+Theorem C08_halving_good : good_suggest Halving.
+Proof. exact halving_good. Qed.
+Print Assumptions C08_halving_good.
+
+Theorem C08_delta_good_total : good_suggest DeltaLargest /\ total DeltaLargest.
+Proof. exact (conj delta_good delta_total). Qed.
+Print Assumptions C08_delta_good_total.
+
+Theorem C08_approx_good_total : good_suggest Approximation /\ total Approximation.
+Proof. exact (conj approx_good approx_total). Qed.
+Print Assumptions C08_approx_good_total.
+
+Theorem C08_usefirst_good : forall hs, Forall good_suggest hs -> good_suggest (UseFirst hs).
+Proof. exact usefirst_good. Qed.
+Print Assumptions C08_usefirst_good.
+
+Theorem C08_usefirst_total : forall hs, Exists total hs -> total (UseFirst hs).
+Proof. exact usefirst_total. Qed.
+Print Assumptions C08_usefirst_total.
+
+Theorem C08_every_heuristic_good : forall h, good_suggest h.
+Proof. exact heur_good. Qed.
+Print Assumptions C08_every_heuristic_good.
+
+Theorem C08_halving_partial : ~ total Halving.
+Proof. exact halving_not_total. Qed.
+Print Assumptions C08_halving_partial.
+
+(* the Bos-Coster loop for any heuristic meeting the contract, any fuel: Ok means a chain with every
+   target; the error means the heuristic is not total; out of fuel only below the largest target *)
+Theorem C08_find_sequence_ok : forall h, good_suggest h -> forall ts, (forall t, In t ts -> 0 < t) ->
+  forall fuel,
+  match find_sequence h fuel ts with
+  | Ok c => is_chain c /\ asc c /\ (forall t, In t ts -> In t c) /\
+            (forall x, In x c -> x <= 2 \/ exists t, In t ts /\ x <= t)
+  | Err e => e = noseq /\ ~ total h
+  | Panic _ => False
+  | OutOfFuel => Z.of_nat fuel <= last (init_proto ts) 0 - 2
+  end.
+Proof. exact find_sequence_ok. Qed.
+Print Assumptions C08_find_sequence_ok.
+
+Theorem C08_find_sequence_terminates : forall h, good_suggest h -> forall ts, (forall t, In t ts -> 0 < t) ->
+  exists f0, forall fuel, (f0 <= fuel)%nat -> find_sequence h fuel ts <> OutOfFuel.
+Proof. exact find_sequence_terminates. Qed.
+Print Assumptions C08_find_sequence_terminates.
+
+(* the entry point runs the same loop with 2^bitlen(max) iterations allowed *)
+Theorem C08_entry_fuel_heuristic : forall h ts, find_sequence_go h ts = find_sequence h (2 ^ iter_bits ts) ts.
+Proof. exact find_sequence_go_eq. Qed.
+Print Assumptions C08_entry_fuel_heuristic.
+
+(* ---- continued fractions ---- *)
+(* every strategy, on every n that can reach it (n >= 5: not a power of two, not 3), proposes a
+   non-empty list of k with 2 <= k < n, and does not fail *)
+Theorem C08_good_K : forall s n, 5 <= n ->
+  exists ks, strategy_K s n = Ok ks /\ ks <> [] /\ forall k, In k ks -> 2 <= k < n.
+Proof. exact all_good_K. Qed.
+Print Assumptions C08_good_K.
+
+(* chain(ns) for sorted positive ns: terminates (the depth measure of DESIGN 5.C08) with a chain that
+   ends at the largest value and contains every value *)
+Theorem C08_cf_chain_ok : forall s, good_K s -> forall ns, ns <> [] -> StronglySorted Z.le ns ->
+  (forall x, In x ns -> 0 < x) ->
+  exists f0, forall fuel, (f0 <= fuel)%nat ->
+  exists c, cf_chain s fuel ns = Ok c /\ is_chain c /\ asc c /\ last c 0 = last ns 0 /\ forall t, In t ns -> In t c.
+Proof. exact cf_chain_ok_sorted. Qed.
+Print Assumptions C08_cf_chain_ok.
+
+Theorem C08_entry_fuel_contfrac : forall s ts,
+  cf_find_sequence_go s ts = cf_find_sequence s (2 ^ cf_depth_bits ts) ts.
+Proof. exact cf_find_sequence_go_eq. Qed.
+Print Assumptions C08_entry_fuel_contfrac.
+
+(* ---- non-vacuity ---- *)
+Example C08_ex_heuristic :
+  find_sequence_alg (SAHeuristic [Halving; DeltaLargest]) [117; 47; 47; 1; 343] =
+    Ok [1; 2; 3; 4; 7; 11; 22; 44; 47; 54; 58; 116; 117; 171; 342; 343]
+  /\ find_sequence_alg (SAHeuristic [Halving]) [117; 47] = Err noseq
+  /\ find_sequence_alg (SAHeuristic [Halving]) [64; 4] = Ok [1; 2; 4; 8; 16; 32; 64].
+Proof. vm_compute. repeat split. Qed.
+
+Example C08_ex_contfrac :
+  map (fun s => find_sequence_alg (SAContfrac s) [7; 5; 5; 2]) strategies =
+    [Ok [1; 2; 4; 5; 7]; Ok [1; 2; 4; 5; 7]; Ok [1; 2; 4; 5; 7]; Ok [1; 2; 4; 5; 7];
+     Ok [1; 2; 4; 5; 7]; Ok [1; 2; 4; 5; 7]; Ok [1; 2; 4; 5; 7]]
+  /\ targets_after (SAContfrac Binary) [7; 5; 5; 2] = [2; 5; 5; 7].
+Proof. vm_compute. repeat split. Qed.
+
+Example C08_ex_good_pre : good_pre [1; 2; 5; 9] 23 /\ suggest Halving [1; 2; 5; 9] 23 = Ok (Some [1; 11; 22]).
+Proof.
+  split; [|vm_compute; reflexivity].
+  split; [simpl; repeat split; intros y Hy; simpl in Hy; intuition; subst; reflexivity|].
+  split; [simpl; auto|]. split; [simpl; auto|].
+  intros y Hy. simpl in Hy. intuition; subst; split; reflexivity.
+Qed.
